@@ -299,8 +299,8 @@ example : c05 {} (i 1) (.scalar none (.str "5".toList)) = .ok (.scalar none (.st
 example : Retyped false (i 1) (.scalar none (.str "5".toList)) = true := by decide +kernel
 
 /-- `strip_path_prefix` compares texts: a rule for `/a/bc/x` is (wrongly) re-based on the merge path
-`/a/b` to `c/x` (mirrored; observation in `notes/C11.md`). -/
-example : stripPrefix ["a".toList, "bc".toList, "x".toList] ["a".toList, "b".toList] = ["c".toList, "x".toList] := by
+`/a/b` to the single key `c/x` (mirrored; observation in `notes/C11.md`). -/
+example : stripPrefix ["a".toList, "bc".toList, "x".toList] ["a".toList, "b".toList] = ["c/x".toList] := by
   decide +kernel
 
 /-- The hypotheses of `mergeat_meets_spec_partial` are met by a non-trivial case. -/
